@@ -9,6 +9,8 @@ pub struct Inject {
     pending: [Vec<u8>; 3],
     /// (space, packet number, bytes written; 0 = dropped because it did not fit)
     log: Vec<(u8, u64, usize)>,
+    /// set the reserved header bits of the next packet built (before packet protection is applied)
+    reserved_bits: bool,
 }
 
 /// Facts about the connection that decide how a peer frame is judged (read-only)
@@ -88,6 +90,16 @@ impl Connection {
         self.verif_inject.pending[space as usize].extend_from_slice(&bytes);
         self.spaces[space_id].ping_pending = true;
         true
+    }
+
+    /// The next packet this connection builds (any space, closing packets included) carries non-zero reserved
+    /// header bits under otherwise correct packet protection: what a buggy or hostile authenticated peer can send
+    pub fn verif_set_reserved_bits_next(&mut self) {
+        self.verif_inject.reserved_bits = true;
+    }
+
+    pub(in crate::connection) fn verif_take_reserved_bits(&mut self) -> bool {
+        std::mem::take(&mut self.verif_inject.reserved_bits)
     }
 
     /// (space, packet number, bytes written) of the injections written since the last call
